@@ -5,6 +5,7 @@ FUNCTIONS = ["SVD.lstsq", "MeritFuctionView._scaled_to_native", "MeritFuctionVie
              "MeritFunctionForMatch._knobs_to_x"]
 RAC = "rac/c16.py"
 RAC_BUDGET = {"quick": 60, "thorough": 900}
+RAC_MIN = {"quick": 586, "thorough": 586}      # fewer run-time evaluations than this = the harness skipped its work: checker broken, not "held"
 DESIGN_REF = "DESIGN.md section 4, C16"
 TECHNIQUE = 'contract-based deductive verification (pyvc pointwise engine: SVD.lstsq computes the truncated pseudo-inverse term, the view scalings are the two affine maps and are proved mutually inverse as lemmas; z3 NRA) + run-time contracts against numpy.linalg references and finite differences'
 TRUSTED = ["floats are treated as reals (DESIGN 2.3(1)); every 'up to rounding' clause is run-time only", 'numpy-lite model of pyvc/num_engine.py (vectors as length + array, in-place scaling as a scalar factor, np.abs/argmin/all, zip/enumerate/range) and, for element-wise numpy code, the pointwise abstraction of pyvc/pointwise_engine.py', 'numpy / LAPACK / scipy themselves', 'z3 (NRA/LRA + quantifiers), cvc5']
